@@ -57,7 +57,7 @@ def items(tier, seed):
     return out
 
 
-def roundtrip(m, out, item, tag, bond_orders=False, need_bond_stereo=False):
+def roundtrip(m, out, item, tag, bond_orders=False, need_bond_stereo=False, real=None):
     from stereomolgraph.rdmol2graph import RDMol2StereoMolGraph
 
     oc = out["outcomes"]
@@ -66,7 +66,7 @@ def roundtrip(m, out, item, tag, bond_orders=False, need_bond_stereo=False):
         out["viol"].append({"sig": f"C13/{tag}/{clause}", "input": U.key(m), "what": what + f" [{U.describe(m)}]",
                             "item": item, "detail": detail})
 
-    g = U.build(m)
+    g = U.build(m) if real is None else real      # 'real': a graph the library derived itself, with the content of m
     before = norm(snap(g))
     out["evals"] += 1
     out["distinct"] += 1
@@ -230,6 +230,37 @@ def run_item(item):
                     for q in sorted(RS.ROT("PlanarBond")):
                         m = U.mk(SMG, atoms, bonds, bstereo=[("PlanarBond", RS.apply(t, q), 0)])
                         roundtrip(m, out, item, "ez-imine", bond_orders=True, need_bond_stereo=True)
+        # diazenes X-N=N-Y: a lone pair on both ends, every spelling
+        for x in ("H", "F", "C"):
+            for y in ("H", "Cl", "C"):
+                for swap in (False, True):
+                    pool = list(range(1, 30))
+                    ids = pool[:4]
+                    atoms = [(ids[0], "N"), (ids[1], "N"), (ids[2], x), (ids[3], y)]
+                    bonds = [(ids[0], ids[1]), (ids[0], ids[2]), (ids[1], ids[3])]
+                    nxt = 4
+                    for k, e in ((2, x), (3, y)):
+                        if e == "C":
+                            for _ in range(3):
+                                atoms.append((pool[nxt], "H"))
+                                bonds.append((ids[k], pool[nxt]))
+                                nxt += 1
+                    t = (ids[2], None, ids[0], ids[1], None, ids[3]) if swap else (ids[2], None, ids[0], ids[1], ids[3], None)
+                    for q in sorted(RS.ROT("PlanarBond")):
+                        m = U.mk(SMG, atoms, bonds, bstereo=[("PlanarBond", RS.apply(t, q), 0)])
+                        roundtrip(m, out, item, "ez-diazene", bond_orders=True, need_bond_stereo=True)
+        # the exported graph is itself derived: a subgraph (given in reversed atom order) of a larger graph, and a relabelled copy
+        for (x, y), (z, w) in itertools.product((("H", "F"), ("F", "Cl")), (("H", "Cl"), ("H", "F"))):
+            ids = [3, 8, 1, 6, 4, 9]
+            atoms = [(ids[0], "C"), (ids[1], "C"), (ids[2], x), (ids[3], y), (ids[4], z), (ids[5], w), (20, "O"), (21, "H"), (22, "H")]
+            bonds = [(ids[0], ids[1]), (ids[0], ids[2]), (ids[0], ids[3]), (ids[1], ids[4]), (ids[1], ids[5]), (20, 21), (20, 22)]
+            big = U.mk(SMG, atoms, bonds, bstereo=[("PlanarBond", (ids[2], ids[3], ids[0], ids[1], ids[4], ids[5]), 0)])
+            for order in (list(reversed(ids)), [ids[5], ids[0], ids[3], ids[1], ids[2], ids[4]]):
+                g = U.build(big).subgraph(order)
+                roundtrip(big.subgraph(ids), out, item, "ez-derived-subgraph", bond_orders=True, need_bond_stereo=True, real=g)
+            g = U.build(big.subgraph(ids)).relabel_atoms({a: a + 30 for a in ids}, copy=True)
+            roundtrip(big.subgraph(ids).relabel({a: a + 30 for a in ids}), out, item, "ez-derived-relabel", bond_orders=True,
+                      need_bond_stereo=True, real=g)
         out["samples"].append({"part": "E/Z with regenerated bond orders"})
         return out
     # organic molecules imported from RDKit, then exported and imported again
